@@ -51,7 +51,7 @@ def repo_hash():
     import hashlib
     h = hashlib.sha256()
     roots = [os.path.join(REPO, d) for d in ("core", "server", "sqlite")] + [os.path.join(VERIF, "conform", "src")]
-    files = [os.path.join(REPO, "Cargo.toml"), os.path.join(REPO, "Cargo.lock"), os.path.join(VERIF, "conform", "Cargo.toml")]
+    files = [os.path.join(REPO, "Cargo.toml"), os.path.join(REPO, "Cargo.lock"), os.path.join(VERIF, "conform", "Cargo.toml"), os.path.join(VERIF, "lib", "procleg.py")]
     for r in roots:
         for dp, dn, fn in os.walk(r):
             dn[:] = [d for d in dn if d != "target"]
